@@ -252,6 +252,10 @@ func generate(rng *hx.Rng, thorough bool) []kase {
 			cmds: []string{"FETCH $N BODYSTRUCTURE", "FETCH $N BODY", "FETCH $N FULL", "FETCH $N (BODY[] BODY[1] BODY[2] BODY[1.1] BODY[2.1])", "SEARCH BODY text", "FETCH $N (ENVELOPE RFC822.SIZE)"}, class: "empty-container"})
 	}
 	out = append(out, kase{kind: "imap", msg: "From: a@example.org\r\nSubject: s\r\n\r\nranges\r\n", cmds: []string{"FETCH 50000000:1 FLAGS", "STORE 50000000:1 +FLAGS (\\Seen)", "COPY 50000000:1 INBOX", "UID FETCH 50000000:1 FLAGS", "FETCH 1:50000000 FLAGS"}, class: "huge-range"})
+	// the same with numbers no loop can walk: 10^15, 2^32, 2^63-1, in both orders, in every command that takes a set
+	out = append(out, kase{kind: "imap", msg: "From: a@example.org\r\nSubject: s\r\n\r\nranges\r\n", cmds: []string{"FETCH 1:999999999999999 FLAGS", "STORE 999999999999999:2 +FLAGS (\\Seen)", "COPY 1:4294967296 INBOX",
+		"FETCH 1:9223372036854775807 FLAGS", "UID FETCH 1:999999999999999 FLAGS", "UID STORE 999999999999999:1 +FLAGS (\\Seen)", "SEARCH 1:999999999999999", "SEARCH UID 999999999999999:1", "UID COPY 1:9223372036854775807 INBOX",
+		"FETCH 1,2,1:999999999999999,3 FLAGS", "UID EXPUNGE 1:999999999999999"}, class: "huge-range"})
 	for _, a := range addrValues {
 		out = append(out, kase{kind: "imap", msg: "From: " + a + "\r\nSubject: s\r\n\r\nx\r\n", cmds: []string{"FETCH $N ENVELOPE"}, class: "odd-address"})
 	}
